@@ -98,6 +98,9 @@ type LocalScenario struct {
 	VmemGB  int            `json:"vmem_gb"`
 	Default [2]int         `json:"default"` // ThreadsPerJob, MemGBPerJob
 	Jobs    []JobResources `json:"jobs"`
+	// Killed[j]: job j was killed (its metadata says failed) while it was
+	// still waiting for its resources.
+	Killed []bool `json:"killed,omitempty"`
 }
 
 func (sc LocalScenario) String() string {
@@ -105,7 +108,13 @@ func (sc LocalScenario) String() string {
 	for _, j := range sc.Jobs {
 		js = append(js, fmt.Sprintf("%g/%g/%g", j.Threads, j.MemGB, j.VMemGB))
 	}
-	return fmt.Sprintf("local{cores=%d mem=%d vmem=%d default=%v | %s}", sc.Cores, sc.MemGB, sc.VmemGB, sc.Default, strings.Join(js, " "))
+	k := ""
+	for j, b := range sc.Killed {
+		if b {
+			k += fmt.Sprintf(" killed=%d", j)
+		}
+	}
+	return fmt.Sprintf("local{cores=%d mem=%d vmem=%d default=%v | %s%s}", sc.Cores, sc.MemGB, sc.VmemGB, sc.Default, strings.Join(js, " "), k)
 }
 
 func verifSetState(md *Metadata, names ...MetadataFileName) {
